@@ -10,7 +10,9 @@ What is modelled (the code that exists, defects included):
   bodies plus a final body; a subquery is a nested `Body`;
 * the engine's meaning of a WITH list (`resolveFuel` / `Evaluates`): every reference resolves *by name*
   to the CTE of that name wherever it stands in the list (DuckDB binds the whole WITH list first; a
-  forward reference is legal), otherwise to a base table of the database;
+  forward reference is legal), otherwise to a base table of the database — this is how the statement
+  `session.sql` *builds* is read; the statement the user *wrote* is read the way Spark reads it
+  (`evalLex`: a CTE is visible to later definitions and to the main query only);
 * `session.temp_views` (`Registry`: normalised name ↦ frozen frame + the column list the catalog holds),
   `createOrReplaceTempView` (`register`), `reader.table` (`tableLookup`), the splice of `session.sql`
   (`splice`), all parameterised by the decisions regenerated from the source (`Gen.Views`);
@@ -38,6 +40,8 @@ inductive UnOp
   | distinct
   | keep (cs : List Name)                   -- the columns the catalog *believes* the source has (stale schema)
   | byName                                  -- `SELECT c1, …, cn FROM cte`: the identity select, columns read *by name*
+  | sort (keys : List OrdKey)               -- ORDER BY (DataFrame `orderBy`; the row list of a table is ordered)
+  | limit (n : Nat)                         -- LIMIT
   deriving DecidableEq, Repr
 
 inductive BinOp2
@@ -92,6 +96,8 @@ def UnOp.apply : UnOp → Table → Option Table
   | .distinct, T => some T.distinct
   | .keep cs, T => some (T.project ((cs.filter (fun c => T.cols.contains c)).map (fun c => (c, Expr.col c))))
   | .byName, T => some { cols := T.cols, rows := T.rows.map (fun r => T.cols.map (fun c => lookup T.cols r c)) }
+  | .sort keys, T => if keys.all (fun k => T.cols.contains k.name) then some (T.sort keys) else none
+  | .limit n, T => some (T.limit n)
 
 def removeCol (cols : List Name) (r : Row) (k : Name) : Row :=
   (cols.zip r).filterMap (fun cv => if cv.1 = k then none else some cv.2)
@@ -167,6 +173,24 @@ def Evaluates (db : Db) (q : Query) (T : Table) : Prop := ∃ f, evalQueryFuel d
 /-- executable evaluation used by the driver (fuel = number of CTEs + 1 suffices for acyclic lists) -/
 def evalQuery (db : Db) (q : Query) : Option Table := evalQueryFuel db q (q.ctes.length + 1)
 
+/-! ### Spark's meaning of a WITH list (the specification side)
+
+A CTE is visible to the CTE definitions that *follow* it and to the main query, and nowhere else: inside
+its own definition and inside earlier definitions its name still means whatever it meant outside (a temp
+view, a table).  For a list without self / forward references this is the engine's name-based reading
+(`C13_lexical_nameBased`). -/
+
+/-- the environment after one CTE definition -/
+def bindCte (env : Db) (c : CTE) : Db := fun n => if n = c.1 then evalBody env c.2 else env n
+
+/-- the environment the main query sees -/
+def lexEnv (db : Db) (ctes : List CTE) : Db := ctes.foldl bindCte db
+
+def evalLex (db : Db) (q : Query) : Option Table := evalBody (lexEnv db q.ctes) q.final
+
+/-- CTE names in scope inside the definition of the CTE named `n`: those defined before it -/
+def scopeBefore (ctes : List CTE) (n : Name) : List Name := names (ctes.takeWhile (fun c => c.1 ≠ n))
+
 /-! ### frames (DataFrames as the splice sees them) -/
 
 /-- a DataFrame: its CTE chain and the open leaf select -/
@@ -180,11 +204,34 @@ def Frame.query (fr : Frame) : Query := ⟨fr.ctes, fr.leaf⟩
 /-- how a new CTE is named from the expression it closes (content hash in the code) -/
 abbrev Namer := List CTE → Body → Name
 
+/-- the argument of the leaf SELECT an operator of the model lives in (sqlglot's `args` key) -/
+def UnOp.clause : UnOp → String
+  | .qual _ => "from"
+  | .star => "expressions"
+  | .filter _ => "where"
+  | .project _ => "expressions"
+  | .agg _ _ => "group"
+  | .distinct => "distinct"
+  | .keep _ => "expressions"
+  | .byName => "expressions"
+  | .sort _ => "order"
+  | .limit _ => "limit"
+
+/-- `_create_cte_from_expression` copies the leaf SELECT and clears the arguments listed in
+    `Gen.cteClearedArgs` (in the code: only its WITH list, which moves to the new statement) before it
+    becomes the CTE body: the outermost operators living in a cleared argument are lost -/
+def movedLeaf : Body → Body
+  | .un op b => if cteClearedArgs.contains op.clause then movedLeaf b else .un op b
+  | b => b
+
+/-- `_convert_leaf_to_cte`: the new WITH list starts with the frame's own (`expression.ctes + [cte]`) -/
+def keptChain (ctes : List CTE) : List CTE := if wrapKeepsChain then ctes else []
+
 /-- `_convert_leaf_to_cte`: the leaf becomes the last CTE; the new leaf is the identity select over it
     (`SELECT <outer column names> FROM <cte>`: columns are read back by name, so a duplicated output
     name yields the first such column twice) -/
 def wrap (nm : Namer) (fr : Frame) : Frame :=
-  { ctes := fr.ctes ++ [(nm fr.ctes fr.leaf, fr.leaf)], leaf := .un .byName (.scan (nm fr.ctes fr.leaf)) }
+  { ctes := keptChain fr.ctes ++ [(nm fr.ctes fr.leaf, movedLeaf fr.leaf)], leaf := .un .byName (.scan (nm fr.ctes fr.leaf)) }
 
 /-- a frame whose leaf is the identity select over its last CTE -/
 def Frame.Wrapped (fr : Frame) : Prop := ∃ n b, fr.ctes.getLast? = some (n, b) ∧ fr.leaf = .un .byName (.scan n)
@@ -192,7 +239,7 @@ def Frame.Wrapped (fr : Frame) : Prop := ∃ n b, fr.ctes.getLast? = some (n, b)
 def Frame.lastName (fr : Frame) : Option Name := fr.ctes.getLast?.map (·.1)
 def Frame.firstName (fr : Frame) : Option Name := fr.ctes.head?.map (·.1)
 
-/-- DataFrame-level transformation (where / select / distinct / groupBy-agg): one more operator on the leaf -/
+/-- DataFrame-level transformation (where / select / distinct / groupBy-agg / orderBy / limit): one more operator on the leaf -/
 def transform (fr : Frame) (op : UnOp) : Frame := { fr with leaf := .un op fr.leaf }
 
 /-! ### registry -/
@@ -234,9 +281,16 @@ def tableKey (norm : Name → Name) (name : Name) : Name := if tableNormalizesNa
 def tableLookup (norm : Name → Name) (reg : Registry) (name : Name) : Option Frame :=
   if tableChecksViewsFirst then (assoc reg (tableKey norm name)).map (·.frame) else none
 
+/-- `session.table(name)` for a name that is no view: `SELECT <the table's columns> FROM name` (the column list
+    is the engine catalog's at that moment; an unknown table is an error) -/
+def baseFrame (db : Db) (name : Name) : Frame :=
+  match db name with
+  | some T => ⟨[], .un (.project (identSel T.cols)) (.scan name)⟩
+  | none => ⟨[], .scan name⟩
+
 /-- `session.table(name)` as a frame: the view, else a read of the base table -/
-def tableFrame (norm : Name → Name) (reg : Registry) (name : Name) : Frame :=
-  (tableLookup norm reg name).getD ⟨[], .scan name⟩
+def tableFrame (norm : Name → Name) (db : Db) (reg : Registry) (name : Name) : Frame :=
+  (tableLookup norm reg name).getD (baseFrame db name)
 
 /-! ### the splice of `session.sql` -/
 
@@ -276,15 +330,19 @@ def addCtes (cfg : SpliceCfg) (existing chain : List CTE) : List CTE :=
   | .append => existing ++ ctesToAdd cfg.append existing chain
   | .prepend => ctesToAdd cfg.append existing chain ++ existing
 
-/-- one pass over the table references (in traversal order): the view chains are added to the WITH list -/
-def spliceCtes (cfg : SpliceCfg) (norm : Name → Name) (reg : Registry) (users : List Name) : List Name → List CTE → List CTE
-  | [], cs => cs
-  | r :: rs, cs =>
-    match viewOf cfg norm reg users r with
-    | some e => spliceCtes cfg norm reg users rs (addCtes cfg cs e.frame.ctes)
-    | none => spliceCtes cfg norm reg users rs cs
-
 def Query.refs (q : Query) : List Name := q.final.refs ++ q.ctes.flatMap (fun c => c.2.refs)
+
+/-- The table references `session.sql` treats as view references, as registry entries in traversal order.
+    Every reference is judged in its own scope (`traverse_scope`): in the main query all CTEs of the
+    statement are visible, inside the definition of a CTE only the CTEs defined before it. -/
+def viewRefs (cfg : SpliceCfg) (norm : Name → Name) (reg : Registry) (q : Query) : List Entry :=
+  q.final.refs.filterMap (viewOf cfg norm reg (names q.ctes))
+  ++ q.ctes.flatMap (fun c => c.2.refs.filterMap (viewOf cfg norm reg (scopeBefore q.ctes c.1)))
+
+/-- one pass over the view references: the view chains are added to the WITH list -/
+def addChains (cfg : SpliceCfg) : List Entry → List CTE → List CTE
+  | [], cs => cs
+  | e :: es, cs => addChains cfg es (addCtes cfg cs e.frame.ctes)
 
 /-- static output column names of a body, given those of the names it scans (what sqlglot's `qualify`
     knows when it expands `*`); `none` = unknown -/
@@ -397,9 +455,9 @@ def spliceBody (cfg : SpliceCfg) (norm : Name → Name) (reg : Registry) (users 
 def spliceWith (cfg : SpliceCfg) (norm : Name → Name) (reg : Registry) (q : Query) : Query :=
   let users := names q.ctes
   let ucols := stmtCols norm reg q.ctes (q.ctes.length + 1)
-  let ctes' := spliceCtes cfg norm reg users q.refs q.ctes
-  -- only the statement's own bodies are rewritten; the view chains are added as they are
-  { ctes := ctes'.map (fun c => if users.contains c.1 then (c.1, spliceBody cfg norm reg users ucols c.2) else c),
+  let ctes' := addChains cfg (viewRefs cfg norm reg q) q.ctes
+  -- only the statement's own bodies are rewritten (each in its own scope); the view chains are added as they are
+  { ctes := ctes'.map (fun c => if users.contains c.1 then (c.1, spliceBody cfg norm reg (scopeBefore q.ctes c.1) ucols c.2) else c),
     final := spliceBody cfg norm reg users ucols q.final }
 
 def splice (norm : Name → Name) (reg : Registry) (q : Query) : Query := spliceWith genCfg norm reg q
@@ -436,14 +494,14 @@ def schemaBody (cfg : SpliceCfg) (norm : Name → Name) (reg : Registry) (users 
 
 /-- does the statement reference a view whose catalog columns are stale? -/
 def anyStale (norm : Name → Name) (reg : Registry) (q : Query) : Bool :=
-  (q.refs.filterMap (viewOf genCfg norm reg (names q.ctes))).any (fun e => e.stale)
+  (viewRefs genCfg norm reg q).any (fun e => e.stale)
 
 def qualifyFails (db : Db) (norm : Name → Name) (reg : Registry) (q : Query) : Bool :=
   let users := names q.ctes
   if anyStale norm reg q then
     let ucols := stmtCols norm reg q.ctes (q.ctes.length + 1)
-    let ctes' := (spliceCtes genCfg norm reg users q.refs q.ctes).map
-      (fun c => if users.contains c.1 then (c.1, schemaBody genCfg norm reg users ucols c.2) else c)
+    let ctes' := (addChains genCfg (viewRefs genCfg norm reg q) q.ctes).map
+      (fun c => if users.contains c.1 then (c.1, schemaBody genCfg norm reg (scopeBefore q.ctes c.1) ucols c.2) else c)
     let fuel := ctes'.length + 1
     users.any (fun u => (resolveFuel db ctes' fuel u).isNone)
       || (evalBody (resolveFuel db ctes' fuel) (schemaBody genCfg norm reg users ucols q.final)).isNone
@@ -525,7 +583,7 @@ def step (nm : Namer) (norm : Name → Name) (db : Db) (σ : St) : Ev → St
     match σ.frames[i]? with
     | some fr => { σ with reg := register nm norm σ.reg name fr (frameCols db fr) }
     | none => σ
-  | .table name => { σ with frames := σ.frames ++ [tableFrame norm σ.reg name] }
+  | .table name => { σ with frames := σ.frames ++ [tableFrame norm db σ.reg name] }
   | .sql q => { σ with frames := σ.frames ++ [sqlFrameChecked nm norm db σ.reg q] }
   | .transform i op =>
     match σ.frames[i]? with
@@ -533,7 +591,7 @@ def step (nm : Namer) (norm : Name → Name) (db : Db) (σ : St) : Ev → St
     | none => σ
   | .joinBack i name k =>
     match σ.frames[i]? with
-    | some fr => { σ with frames := σ.frames ++ [joinFrames nm k fr (tableFrame norm σ.reg name)] }
+    | some fr => { σ with frames := σ.frames ++ [joinFrames nm k fr (tableFrame norm db σ.reg name)] }
     | none => σ
 
 def run (nm : Namer) (norm : Name → Name) (db : Db) : St → List Ev → St
